@@ -170,4 +170,19 @@ CHECKS = {
         assumptions=["H.Inj", "distinct GERs", "rollupID >= 1", "no zero-after-nonzero exit root for manager equality"],
         trusted_base=["hand model Model/L1InfoStore.lean", "model of package tree"],
     ),
+    "C05": dict(
+        modules=["AggkitModel.Properties.C05"],
+        scenarios=[dict(name="downloader")],
+        generated=[],
+        leanchecker=True,
+        level_text="Proved in Lean 4 by induction over loop iterations, for every chain, chunk size (0 included), start block and EVERY admissible sequence of (tip, finalized) observations — tip jumps of any size, finalized below/at/above the tip or not moving, failing finalized lookups: "
+                   "C05_exactly_once — the blocks handed to the driver are strictly increasing (so each at most once), each carries exactly the watched logs of its own block in log order (empty markers only for blocks without watched logs), and every block with watched logs between the start and the loop position has been handed over; "
+                   "C05_no_gap — at the moment any block is handed over, all earlier blocks with watched logs already were (the last-processed marker cannot pass an unstored event block, the driver processing the channel in order). "
+                   "Tie: the real sync.EVMDownloader.Download loop incl. GetEventsByBlockRange / GetLogs (topic + Removed filtering, header cross-check) against a scripted client serving the same chain and observation script for a fixed number of iterations (verif hook on the loop's iteration limit), output compared with the model.",
+        level_note="Trusted: Lean kernel; model/code correspondence (generator-bounded). Admissibility = what WaitForNewBlocks guarantees (a returned tip exceeds the last one) and start <= tip+1. The chain is fixed (reorgs: C06). The driver's retry loop and the hand-over through the Go channel are exercised by the store scenarios (C07), not modelled here; "
+                   "the six-mismatch give-up path of getEventsByBlockRangeWithRetry belongs to C06.",
+        rule="seeded: chunk in {0,1,2,3,7,10,50}, event density 5-80%, 1-3 watched logs per event block plus logs of other topics and Removed logs, 4-17 iterations of strictly increasing tips (occasional jumps of 20+), finality lag in {0,1,3,8,100} or pointer at/above the tip or frozen, 8% failing finalized lookups; distinct non-trivial = distinct run lines",
+        assumptions=["tips returned by WaitForNewBlocks exceed the last seen tip", "start <= first tip + 1", "fixed chain"],
+        trusted_base=["hand model Model/Downloader.lean"],
+    ),
 }
